@@ -181,6 +181,7 @@ func discharge(fr *FuncResult, o *Obligation, dir string, timeoutMs int, idx int
 	t0 := time.Now()
 	r := runSolver(solvers[0], file, first)
 	final := r
+	var tentative *solveResult
 	if r.status != "sat" && r.status != "unsat" {
 		ch := make(chan solveResult, 3)
 		var wg sync.WaitGroup
@@ -196,8 +197,16 @@ func discharge(fr *FuncResult, o *Obligation, dir string, timeoutMs int, idx int
 		}
 		go func() { wg.Wait(); close(ch) }()
 		for rr := range ch {
+			if rr.status == "sat" && rr.solver == "z3" {
+				// z3 4.8.12 has answered sat on quantified queries that z3 5.1 and cvc5 both refute
+				// (see DESIGN.md 7.7a): its models are only used when no other solver decides
+				r2 := rr
+				tentative = &r2
+				continue
+			}
 			if rr.status == "sat" || rr.status == "unsat" {
 				final = rr
+				tentative = nil
 				break
 			}
 			if final.status != "sat" && final.status != "unsat" {
@@ -206,6 +215,9 @@ func discharge(fr *FuncResult, o *Obligation, dir string, timeoutMs int, idx int
 				}
 			}
 		}
+	}
+	if tentative != nil && final.status != "sat" && final.status != "unsat" {
+		final = *tentative
 	}
 	o.Status = final.status
 	o.Solver = final.solver
@@ -767,18 +779,32 @@ func crossCheck(items []workItem, budgetMs int, workers int) crossResult {
 				if r.status != "unsat" && r.status != "sat" {
 					r = runSolver(solvers[2], file, budgetMs) // cvc5
 				}
-				os.Remove(file)
 				mu.Lock()
 				res.checked++
 				switch r.status {
 				case "unsat":
 					res.agree++
 				case "sat":
-					res.contradictions = append(res.contradictions, fmt.Sprintf("%s: discharged by %s, %s reports a model", j.nm, j.o.Solver, r.solver))
+					// a model from the second solver on a quantified query: ask the others about the same full query
+					var views []string
+					for _, s3 := range solvers {
+						if s3.Name == r.solver {
+							continue
+						}
+						os.WriteFile(file, []byte(j.q), 0o644)
+						r3 := runSolver(s3, file, budgetMs)
+						os.Remove(file)
+						views = append(views, s3.Name+": "+r3.status)
+					}
+					if os.Getenv("VERIF_DEBUG") != "" {
+						os.WriteFile(filepath.Join(scratchRoot(), fmt.Sprintf("govc-contradiction-%d.smt2", i)), []byte(j.q), 0o644)
+					}
+					res.contradictions = append(res.contradictions, fmt.Sprintf("%s: discharged by %s; on the full query %s reports a model; %s", j.nm, j.o.Solver, r.solver, strings.Join(views, ", ")))
 				default:
 					res.undecided++
 				}
 				mu.Unlock()
+				os.Remove(file)
 			}
 		}()
 	}
